@@ -42,6 +42,13 @@ CFGS = {
     'tsan':    ('clang', ['-O1', '-g1', '-fsanitize=thread', '-DNDEBUG'] + HOOK, ['-fsanitize=thread']),
 }
 
+if os.environ.get('VERIF_COV'):
+    # development aid (not used by any registered check): gcov-instrumented copies of the gcc configurations, to list the
+    # library lines no explorer reaches.  Use together with VERIF_BUILD=<scratch dir>.
+    for _c, (_cc, _cf, _lf) in list(CFGS.items()):
+        if _c != 'tsan':
+            CFGS[_c] = (_cc, _cf + ['--coverage', '-DVERIF_COV'], _lf + ['--coverage'])
+
 def sources():
     out = []
     for root, _, files in os.walk(os.path.join(REPO, 'src')):
